@@ -160,6 +160,52 @@ type callOp struct {
 	f    func(a *callArg) string
 }
 
+// opScribs (by operation name, optional): make the call again and OVERWRITE every part of the object it returns - the
+// result belongs to the caller; if that changes the argument, the result shares storage with it
+var opScribs = map[string]func(a *callArg){}
+
+const scribV = 987654.25
+
+func scribFlat(fc []float64) {
+	for i := range fc {
+		fc[i] = scribV
+	}
+}
+
+func scribGeom(g geom.T) {
+	if g == nil {
+		return
+	}
+	if gc, ok := g.(*geom.GeometryCollection); ok {
+		for _, m := range gc.Geoms() {
+			scribGeom(m)
+		}
+		return
+	}
+	scribFlat(g.FlatCoords())
+	for i := range g.Ends() {
+		g.Ends()[i] = 0
+	}
+	for _, es := range g.Endss() {
+		for i := range es {
+			es[i] = 0
+		}
+	}
+}
+
+func scribCoords(v reflect.Value) {
+	switch v.Kind() {
+	case reflect.Slice:
+		for i := 0; i < v.Len(); i++ {
+			scribCoords(v.Index(i))
+		}
+	case reflect.Float64:
+		if v.CanSet() {
+			v.SetFloat(scribV)
+		}
+	}
+}
+
 func flatOfT(g geom.T) ([]float64, bool) {
 	if _, ok := g.(*geom.GeometryCollection); ok {
 		return nil, false
@@ -349,8 +395,81 @@ func callOps() []callOp {
 			return dig(b, b2, fmt.Sprint(err, err2))
 		}},
 	}
+	far := func(l geom.Layout) geom.T {
+		c := make([]float64, l.Stride())
+		for i := range c {
+			c[i] = -scribV * float64(i+1)
+		}
+		return geom.NewPointFlat(l, c)
+	}
+	scribs := map[string]func(a *callArg){
+		"Bounds": func(a *callArg) {
+			b := a.g.Bounds()
+			if l := b.Layout(); l != geom.NoLayout {
+				b.Extend(far(l))
+				c := make(geom.Coord, l.Stride())
+				b.SetCoords(c, c)
+			}
+		},
+		"Coords": func(a *callArg) {
+			switch g := a.g.(type) {
+			case *geom.LineString:
+				scribCoords(reflect.ValueOf(g.Coords()))
+			case *geom.Polygon:
+				scribCoords(reflect.ValueOf(g.Coords()))
+			case *geom.MultiPoint:
+				scribCoords(reflect.ValueOf(g.Coords()))
+			case *geom.MultiPolygon:
+				scribCoords(reflect.ValueOf(g.Coords()))
+			case *geom.MultiLineString:
+				scribCoords(reflect.ValueOf(g.Coords()))
+			case *geom.Point:
+				scribCoords(reflect.ValueOf(g.Coords()))
+			}
+		},
+		"Clone": func(a *callArg) {
+			switch g := a.g.(type) {
+			case *geom.LineString:
+				scribGeom(g.Clone())
+			case *geom.Polygon:
+				scribGeom(g.Clone())
+			case *geom.MultiPoint:
+				scribGeom(g.Clone())
+			case *geom.MultiPolygon:
+				scribGeom(g.Clone())
+			case *geom.MultiLineString:
+				scribGeom(g.Clone())
+			case *geom.Point:
+				scribGeom(g.Clone())
+			}
+		},
+		"xy.ConvexHull": func(a *callArg) { scribGeom(xy.ConvexHull(a.g)) },
+		"xy.ConvexHullFlat": func(a *callArg) {
+			if fc, ok := flatOfT(a.g); ok {
+				scribGeom(xy.ConvexHullFlat(a.g.Layout(), fc))
+			}
+		},
+		"xy.Centroid": func(a *callArg) {
+			if c, err := xy.Centroid(a.g); err == nil {
+				scribFlat(c)
+			}
+		},
+		"transform.UniqueCoords": func(a *callArg) {
+			if fc, ok := flatOfT(a.g); ok && a.g.Stride() > 0 {
+				scribFlat(transform.UniqueCoords(a.g.Layout(), hullCmp{}, fc))
+			}
+		},
+		// NOT scribbled: the intersector's result. For an endpoint intersection it hands back the caller's own coordinate
+		// value (slice header and all); the property does not promise a copy there.
+	}
 	for i := range ops {
 		ops[i].f = guard(ops[i].f)
+		if sc, ok := scribs[ops[i].name]; ok {
+			opScribs[ops[i].name] = func(a *callArg) {
+				defer func() { _ = recover() }()
+				sc(a)
+			}
+		}
 	}
 	return ops
 }
@@ -447,6 +566,16 @@ func buildGeoms(r *rand.Rand) []namedGeom {
 	gcm.MustPush(geom.NewPointFlat(geom.XYZ, []float64{1, 2, 3}), geom.NewLineStringFlat(geom.XYM, rnd(4, 3, 30)),
 		geom.NewMultiPointFlat(geom.XY, rnd(3, 2, 30)))
 	add("gc-mixed-z-m", gcm)
+	// legal but degenerate: rings that are not closed, each followed by further rings / members in the same flat array
+	// (anything appended "to" such a ring lands in its neighbour)
+	open := []float64{0, 0, 10, 0, 10, 10, 0, 10}
+	add("pg-unclosed-shell", geom.NewPolygonFlat(geom.XY, append(append([]float64{}, open...), hole...), []int{len(open), len(open) + len(hole)}))
+	mpo := geom.NewMultiPolygon(geom.XY)
+	_ = mpo.Push(geom.NewPolygonFlat(geom.XY, append([]float64{}, open...), []int{len(open)}))
+	_ = mpo.Push(geom.NewPolygonFlat(geom.XY, []float64{20, 0, 30, 0, 30, 10, 20, 0}, []int{8}))
+	add("mpg-unclosed-member", mpo)
+	add("mls-one-point-lines", geom.NewMultiLineStringFlat(geom.XY, []float64{1, 1, 2, 2, 3, 3, 4, 5}, []int{2, 4, 8}))
+	add("ls-one-coordinate", geom.NewLineStringFlat(geom.XYZM, []float64{1, 2, 3, 4}))
 	return gs
 }
 
@@ -499,6 +628,14 @@ func callsSpecial(in, out string) int {
 				res := o.f(a)
 				seq++
 				emit(callEvent{Ev: "seq", Gor: 0, Seq: seq, Op: o.name, Arg: a.id, Res: res, Pre: pre, Post: a.snapshot()})
+				if sc := opScribs[o.name]; sc != nil && pass == 1 {
+					// the caller overwrites the object the call returned (second pass only, so that the first pass has
+					// recorded every sequential result on untouched arguments)
+					pre := a.snapshot()
+					sc(a)
+					seq++
+					emit(callEvent{Ev: "scrib", Gor: 0, Seq: seq, Op: o.name, Arg: a.id, Res: "-", Pre: pre, Post: a.snapshot()})
+				}
 			}
 		}
 	}
